@@ -19,7 +19,7 @@ def search(ctx):
     return [run_pair(ctx, "c11", PID, None, tier="thorough", seed=ctx.seed + 1000 + i, subdir="search%d" % i) for i in range(2)]
 
 MANIFEST = dict(
-    text="Theorems over the Socks5Auth model (byte-level parser of the RFC 1928 greeting and the RFC 1929 sub-negotiation with io.ReadFull semantics, method selection, credential comparison, and the placement of authentication in ServeConn) proved for every byte stream and every credential list; constants regenerated from /repo; the extracted model is compared with the real handleAuthentication and ServeConn on in-memory connections (all method lists over {00,01,02,80,FF} up to length 4, lengths 0 and 255, credential and truncation grids), and every case is judged against the property text.",
+    text="Theorems over the Socks5Auth model (byte-level parser of the RFC 1928 greeting and the RFC 1929 sub-negotiation with io.ReadFull semantics, method selection, credential comparison, and the placement of authentication in ServeConn) proved for every byte stream and every credential list; constants regenerated from /repo; the extracted model is compared with the real handleAuthentication and ServeConn on in-memory connections (all method lists over {00,01,02,80,FF} up to length 4, lengths 0 and 255, credential and truncation grids, and a pair-encoding grid: all splits of user+separator+password for every configured pair and the separators none : 00 / space newline =, case and trimming variants, empty fields), and every case is judged against the property text.",
     note="Assumes io.ReadFull semantics on a finite client stream; deadlines and write errors are not modelled. The model is the code with fixes/C11-noauth-preferred-over-credentials.diff applied; the unfixed rule is kept as the refuted legacy variant.",
     technique="Coq proof (structural case analysis over the parser, list lemmas) + exhaustive/differential run of the extracted model against pkg/socks5",
 )
